@@ -246,10 +246,17 @@ def evidence(run, agg, violations, undecided, known_hits, faults, wall, args):
         "the symbolic executor's reading of the Python subset (DESIGN 3.2), incl. evaluation order",
         "z3 5.1 / cvc5 1.0.3 soundness",
     ]
+    # a run that meets a listed known finding has NOT proved the property: it is recorded at level "other"
+    level = "other" if known_hits else "proof"
+    explanation = ("%d of %d obligations discharged; the remaining %d fail on the real code and are listed known findings "
+                   "(each re-confirmed by replaying its stored native witness in this run): %s. The property does not hold "
+                   "on this tree; the check exits 0 only because the failure is the listed one." % (
+                       ndis, nobl, len(known_hits), "; ".join(n for _, n in known_hits))) if known_hits else (
+        "all %d obligations generated from the current source were discharged" % nobl)
     ev = dict(
-        property_id=run.pid, tier=run.tier, seed=run.seed, level="proof",
+        property_id=run.pid, tier=run.tier, seed=run.seed, level=level,
         coverage=dict(
-            obligations=nobl, discharged=ndis,
+            obligations=nobl, discharged=ndis, explanation=explanation,
             obligation_instances=len(run.results),
             checker_cmd="./check %s --tier %s" % (run.pid, run.tier),
             trusted_base=trusted,
